@@ -195,6 +195,28 @@ def simplify(case):
         yield dict(case, same_vector=False)
 
 
+def decode_bytes(fdp):
+    """atheris decoder: every offer is m+1 bytes (grid coordinates 0..8 and a marker), so libFuzzer's byte mutations
+    (insert / copy / cross-over) add, repeat and reorder offers"""
+    head = fdp.ConsumeIntInRange(0, 255)
+    m = 1 + head % 4
+    cmpk = "eps" if (head >> 2) % 3 == 2 else "pareto"
+    eps = [[0.1], [1.0, 2.0], [0.5], [0.01, 5.0, 1.0]][(head >> 4) % 4] if cmpk == "eps" else None
+    scale = [1.0, 0.5, 1e-3, 1e3][(head >> 6) % 4]
+    ops = []
+    while fdp.remaining_bytes() >= m + 1 and len(ops) < 64:
+        v = [(fdp.ConsumeIntInRange(0, 255) % 9) * scale for _ in range(m)]
+        mk = [False, False, False, False, False, True, True, 0.5][fdp.ConsumeIntInRange(0, 255) % 8]
+        ops.append({"v": v + [mk]})
+    if not ops:
+        return None
+    n = len(ops)
+    return {"cmp": cmpk, "eps": eps, "ops": ops, "perm": list(range(n - 1, -1, -1)), "trunc": None,
+            "same_vector": bool(head & 1)}
+
+
+FUZZ_DECODERS = {"archive": decode_bytes}
+
 CLAUSES = [
     Clause("archive", history(30), check_history, quick=1500, thorough=6000, quick_shards=4, simplify=simplify),
     Clause("archive-long", history(60), check_history, quick=200, thorough=1500, quick_shards=2, simplify=simplify),
